@@ -1,5 +1,6 @@
 #!/bin/sh
-# Builds the framework from files on disk only (offline).
+# Builds the framework from files on disk only (offline) and runs the
+# self-tests of the machinery (reference model, instrumenter).
 set -e
 cd /verif
 export GOFLAGS=-mod=mod GOPROXY=off GOSUMDB=off GOTOOLCHAIN=local
